@@ -328,12 +328,20 @@ type Info struct {
 	Footer            *Footer
 }
 
-// ChannelCounts counts the number of messages on each channel in an Info.
+// ChannelCounts counts the number of messages on each topic in an Info. Channels that share a
+// topic are added up. Counts of channels the summary does not describe cannot be attributed
+// to a topic and are left out; without statistics the result is empty.
 func (i *Info) ChannelCounts() map[string]uint64 {
 	counts := make(map[string]uint64)
+	if i.Statistics == nil {
+		return counts
+	}
 	for k, v := range i.Statistics.ChannelMessageCounts {
-		channel := i.Channels[k]
-		counts[channel.Topic] = v
+		channel, ok := i.Channels[k]
+		if !ok || channel == nil {
+			continue
+		}
+		counts[channel.Topic] += v
 	}
 	return counts
 }
